@@ -256,6 +256,12 @@ def pickndrop(
         return
 
     position_front = state.agent.front()
+
+    # nothing to pick or drop onto beyond the grid (NOTE: negative indices
+    # would wrap around, and too large indices would raise)
+    if not state.grid.area.contains(position_front):
+        return
+
     obj_front = state.grid[position_front]
     can_be_dropped = isinstance(obj_front, Floor) or obj_front.holdable
 
